@@ -93,6 +93,7 @@ func (P *Program) verifyFunc(fn *ssa.Function, fc *FuncContract, mode Mode) *Fun
 		v := Val{T: c.declConst("p_"+sanitize(p.Name()), c.sortOf(p.Type())), Ty: p.Type()}
 		args = append(args, v)
 		fr.params[p.Name()] = v
+		fr.vals[p] = v
 		fr.assumeWF(v, st0)
 	}
 	for _, fv := range fn.FreeVars {
@@ -164,6 +165,11 @@ func (P *Program) verifyFunc(fn *ssa.Function, fc *FuncContract, mode Mode) *Fun
 			suffix = fmt.Sprintf("@ret%d", r.ord)
 		}
 		post := &SpecEnv{c: c, fr: fr, vars: map[string]Val{}, st: r.st, old: st0, oldAlloc: "alloc0", pkg: pkg, results: r.results, resultNames: resultNames(fn.Signature)}
+		for _, e := range fc.Defines {
+			// the function's own result defines the abstraction
+			fr.assumeR(post.trBool(e.Expr))
+			c.assumed["definitional abstraction (determinism of "+res.Func+"): "+e.Text] = true
+		}
 		for _, e := range fc.Ensures {
 			v := post.trBool(e.Expr)
 			o := fr.oblige("ensures", e.Label+suffix, propsOr(e.Props, fc.Props), v, e.Text, r.pos)
@@ -372,8 +378,14 @@ func (c *Ctx) splitUsing(env *SpecEnv, items []string) (names []string, extra []
 			continue
 		}
 		sub := &SpecEnv{c: c, fr: env.fr, vars: map[string]Val{}, st: env.st, old: env.old, oldAlloc: env.oldAlloc, pkg: c.prog.TypesPkgs[lm.Pkg], loop: env.loop}
+		nerr := len(c.errs)
 		for i, p := range lm.Params {
 			sub.vars[p.Name] = env.tr(call.Args[i])
+		}
+		if len(c.errs) > nerr {
+			// the instance mentions names that are not in scope at this site: it does not apply here
+			c.errs = c.errs[:nerr]
+			continue
 		}
 		var req, ens []string
 		for _, r := range lm.Requires {
